@@ -5,6 +5,7 @@ import Driver.D25
 import Driver.D29
 import Driver.D31
 import Driver.DParse
+import Driver.DStr
 /-
 `model`: reads one case per line (`stream<TAB>field…`), prints the model's canonical answer.
 Imports model files only (no Mathlib), so it links as a native executable.
@@ -22,6 +23,7 @@ def dispatch (line : String) : String :=
     else if stream ∈ ["lit", "i32", "f64fix", "typrint"] then c10 stream fs
     else if stream ∈ ["lex", "lexlim"] then c03 stream fs
     else if stream ∈ ["parse"] then cParse stream fs
+    else if stream ∈ ["strdecode", "strser"] then cStr stream fs
     else "unknown-stream"
 
 partial def loop (h : IO.FS.Stream) (out : IO.FS.Stream) : IO Unit := do
